@@ -99,11 +99,12 @@ func (h *History) Check() (sig, detail string) {
 		}
 	}
 	// 2. writes, values and versions
-	writeOfVal := map[string]int{}
+	writesOfVal := map[string][]int{} // values are unique per write except where a script deliberately re-writes a stored value
+	getWrite := map[int]int{}
 	verOfWrite := map[int]string{}
 	for i, o := range ops {
 		if o.Err == "nil" && (o.Kind == "create" || o.Kind == "put" || o.Kind == "cas") {
-			writeOfVal[o.Val] = i
+			writesOfVal[o.Val] = append(writesOfVal[o.Val], i)
 			if o.OutVer != "" {
 				verOfWrite[i] = o.OutVer
 			} else if o.Multi == "" {
@@ -111,12 +112,31 @@ func (h *History) Check() (sig, detail string) {
 			}
 		}
 	}
-	for _, o := range ops {
+	for gi, o := range ops {
 		if o.Kind == "get" && o.Err == "nil" {
-			w, ok := writeOfVal[o.OutVal]
-			if !ok {
+			cands := writesOfVal[o.OutVal]
+			if len(cands) == 0 {
 				return "phantom-value", fmt.Sprintf("%v: returned a value that no successful write stored", o)
 			}
+			w := cands[len(cands)-1]
+			if len(cands) > 1 {
+				// several writes stored this value: the version tells them apart
+				w = -1
+				for _, c := range cands {
+					if v, known := verOfWrite[c]; known && v == o.OutVer {
+						w = c
+					}
+				}
+				for _, c := range cands {
+					if _, known := verOfWrite[c]; !known && w < 0 {
+						w = c
+					}
+				}
+				if w < 0 {
+					return "version-value-mismatch", fmt.Sprintf("%v: the value was stored by %d writes, none of them produced version %s", o, len(cands), o.OutVer)
+				}
+			}
+			getWrite[gi] = w
 			if v, known := verOfWrite[w]; known && v != o.OutVer {
 				return "version-value-mismatch", fmt.Sprintf("%v: value written by %v was returned with version %s, that write produced version %s", o, ops[w], o.OutVer, v)
 			}
@@ -163,7 +183,7 @@ func (h *History) Check() (sig, detail string) {
 				if o.Err != "nil" {
 					return !s.present, s
 				}
-				return s.present && writeOfVal[o.OutVal] == s.w, s
+				return s.present && getWrite[i] == s.w, s
 			case "put":
 				return true, kstate{true, i, s.cancelled}
 			case "cas":
